@@ -26,6 +26,7 @@ PROP = 'C10'
 
 
 def init_worker():
+    sh.patch_tables()
     import skoolkit
     import skoolkit.snapshot as snap
     import skoolkit.simutils as su
@@ -182,12 +183,154 @@ def check_restore(item):
     return finish(res, st)
 
 
+# ---------------------------------------------------------------------------
+MINI_ISA = 'NOP (00), EI (FB), DI (F3), JP nn (C3)'
+
+
+def mini_step(path, regs, mem_arr):
+    """effect of the instruction at PC when it is one of NOP / EI / DI / JP nn, as terms (no forking) -> (pc', T', iff', r')"""
+    pc16 = z3.Extract(15, 0, regs[24])
+    op = z3.Select(mem_arr, pc16)
+    path.assume(z3.Or(op == 0x00, op == 0xFB, op == 0xF3, op == 0xC3))
+    target = z3.ZeroExt(W - 8, z3.Select(mem_arr, pc16 + 1)) + 256 * z3.ZeroExt(W - 8, z3.Select(mem_arr, pc16 + 2))
+    seq = z3.ZeroExt(W - 16, pc16 + 1)
+    pc2 = z3.If(op == 0xC3, target, seq)
+    t2 = regs[25] + z3.If(op == 0xC3, z3.BitVecVal(10, W), z3.BitVecVal(4, W))
+    iff2 = z3.If(op == 0xFB, z3.BitVecVal(1, W), z3.If(op == 0xF3, z3.BitVecVal(0, W), regs[26]))
+    r = regs[15]
+    return pc2, t2, iff2, (r & 0x80) | ((r + 1) & 0x7F)
+
+
+def check_resume(item):
+    """('resume', machine): the Python loop of trace.py (Tracer.run) run for two instructions in one go, against one instruction,
+    a stop, and a fresh Tracer.run for the second instruction from the state the first left (what a save/restore hands over):
+    same registers and memory, i.e. the interrupt schedule is a function of the saved state only.  The instruction handlers are
+    replaced by a four-instruction set with exact effects (as in the run-loop item of C06), so the clock is fully symbolic."""
+    _, machine = item
+    import skoolkit.trace as tr
+    import skoolkit.simulator as sm
+    st = Stats()
+    res = new_res()
+    name = 'trace.py loop resumed after one instruction, %s' % machine
+    M = sh.Machine(sm.Simulator, machine, None)
+    fd = M.sim.frame_duration
+    state = {}
+
+    def fn(path):
+        M.reset(path)
+        path.assume(z3.ULT(M.regs0[25], 2 * fd))
+        M.sim.registers[25] = SymInt(M.regs0[25], 0, 2 * fd - 1)
+        regs = M.sim.registers
+        regs0 = list(regs)
+        mem0 = M.mem.arr
+
+        def py_step():
+            pc2, t2, iff2, r2 = mini_step(path, [bv(x) for x in regs], M.mem.arr)
+            regs[24] = SymInt(z3.simplify(pc2), 0, 65535)
+            regs[25] = SymInt(z3.simplify(t2), 0, 2 * fd + 100)
+            regs[26] = SymInt(z3.simplify(iff2), 0, 1)
+            regs[15] = SymInt(z3.simplify(r2), 0, 255)
+
+        class Steps(list):
+            def __getitem__(self, k):
+                return py_step
+        real_opcodes = M.sim.opcodes
+        M.sim.opcodes = Steps()
+        real_print = tr.print if hasattr(tr, 'print') else None
+        tr.print = lambda *a, **k: None
+        try:
+            def run(n):
+                t = tr.Tracer.__new__(tr.Tracer)
+                t.simulator = M.sim
+                t.keyboard = None
+                t.border = 7
+                t.run(regs[24], 70000, n, 0, True, None, None, None, None, '', '02X', '04X')
+            run(2)
+            a_regs, a_mem = M.post_regs(), M.mem.arr
+            regs[:] = regs0
+            M.mem.arr = mem0
+            run(1)
+            run(1)
+            b_regs, b_mem = M.post_regs(), M.mem.arr
+        finally:
+            M.sim.opcodes = real_opcodes
+            if real_print is None:
+                del tr.print
+            else:
+                tr.print = real_print
+        return a_regs, a_mem, b_regs, b_mem
+
+    def on(p, out):
+        res['obligations'] += 1
+        if isinstance(out, tuple) and out[0] == 'exception':
+            res['violations'].append(dict(key='%s:exception' % name, text='%s raises %r' % (name, out[1]), case=dict(kind='resume', machine=machine)))
+            return
+        a_regs, a_mem, b_regs, b_mem = out
+        diffs = [a_regs[i] != b_regs[i] for i in range(29)]
+        names = ['register %s' % n for n in sh.REG_NAMES[:29]]
+        k = z3.BitVec('k_addr', 16)
+        diffs.append(z3.Select(a_mem, k) != z3.Select(b_mem, k)); names.append('memory')
+        r, mod, which = p.check_any(diffs, names)
+        if r == 'unknown':
+            res['inconclusive'].append(name); return
+        if r == 'sat':
+            import simcheck
+            rv, mem, _ = simcheck.model_state(mod, M)
+            res['violations'].append(dict(key='%s:%s' % (name, which[0]), text='%s: %s differ (T=%d, PC=%d, IFF=%d)' % (name, ', '.join(which[:4]), rv[25], rv[24], rv[26]), case=dict(kind='resume', machine=machine, regs=rv, mem=mem)))
+            return
+        res['discharged'] += 1
+        res['nontrivial'] += 1
+        if not res['samples']:
+            res['samples'].append({'item': name, 'instruction_set': MINI_ISA, 'verdict': 'unsat'})
+
+    try:
+        explore(fn, stats=st, on_path=on, max_paths=3000)
+    except Inconclusive as e:
+        res['inconclusive'].append('%s: %s' % (name, e))
+    return finish(res, st)
+
+
+def replay_resume(case):
+    """concrete: the real Simulator and the real Tracer.run, two instructions in one go against 1 + 1"""
+    import contextlib
+    import io
+    import simcheck
+    import skoolkit.trace as tr
+    import skoolkit.simulator as sm
+    mem, default = simcheck.mem_from_case(case['mem'])
+    M = sh.MACHINES[case['machine']]
+    outs = []
+    for split in (False, True):
+        memory = simcheck.mem_list(mem, default)
+        sim = sm.Simulator(memory, config={'frame_duration': M['frame'], 'int_active': M['int_active']})
+        sim.registers[:] = list(case['regs'])
+
+        def run(n):
+            t = tr.Tracer.__new__(tr.Tracer)
+            t.simulator = sim
+            t.keyboard = None
+            t.border = 7
+            with contextlib.redirect_stdout(io.StringIO()):
+                t.run(sim.registers[24], 70000, n, 0, True, None, None, None, None, '', '02X', '04X')
+        if split:
+            run(1); run(1)
+        else:
+            run(2)
+        outs.append((list(sim.registers)[:29], memory))
+    bad = ['%s: %d in one go, %d resumed' % (sh.REG_NAMES[i], outs[0][0][i], outs[1][0][i]) for i in range(29) if outs[0][0][i] != outs[1][0][i]]
+    if outs[0][1] != outs[1][1]:
+        bad.append('memory differs')
+    return bool(bad), '; '.join(bad[:4]) or 'resumed run equals the uninterrupted one'
+
+
 def work(item):
-    return check_restore(item)
+    return check_resume(item) if item[0] == 'resume' else check_restore(item)
 
 
 def replay(case):
     """concrete: simulator state -> get_state -> write_snapshot (real file) -> Snapshot.get -> from_snapshot"""
+    if case.get('kind') == 'resume':
+        return replay_resume(case)
     import tempfile
     import skoolkit.snapshot as snap
     import skoolkit.simutils as su
@@ -241,6 +384,7 @@ def main():
         print(('REPRODUCED: ' if ok else 'not reproduced: ') + detail)
         return 1 if ok else 0
     items = [('restore', fmt, machine, args.tier) for fmt in ('z80', 'szx') for machine in ('48K', '128K', '+2')]
+    items += [('resume', '48K')]
     if args.only:
         items = [i for i in items if args.only in harness.item_name(i)]
     rep = harness.Report(
